@@ -160,3 +160,24 @@ CHECKS.update({
                 note=MODEL_NOTE, design_ref="§4 C32", parts=[rc("cvec", "model"), rc("cvec", "model", variant="rcasan", quick=30000, thorough=400000)],
                 assumptions=["preconditions as for std::vector (no pop_back on an empty vector, positions within [begin,end])", "grow_to_at_least's returned iterator has no std::vector counterpart and is not compared"]),
 })
+
+CHECKS.update({
+    "C38": dict(title="SmallVector behaves like std::vector with aligned storage", level="exploration",
+                technique="rapidcheck stateful model-based testing against std::vector + per-element address alignment oracle + lifetime registry; ASan+UBSan variant",
+                text="Generated sequences over 15 operation kinds (push_back const&/&&, emplace_back, pop_back, resize with and without value, erase, clear, reserve, copy/move construction and assignment, self-assignment, all constructor forms) on two SmallVectors, for inline capacities 1, 2, 4, 8, 64 and element types: 8-aligned and alignas(64) lifetime-tracked objects (all five capacities), alignas(32) tracked, std::string. After every operation contents and size equal std::vector's, every element address is a multiple of alignof(T) (inline and heap), live element objects == the two sizes, no object constructed over a live one / destroyed twice.",
+                note=MODEL_NOTE.replace("(concurrent growth is C33)", ""), design_ref="§4 C38",
+                parts=[rc("small", "model"), rc("small", "model", variant="rcasan", quick=30000, thorough=400000)],
+                assumptions=["preconditions as for std::vector"]),
+    "C39": dict(title="OnceFunction invokes and destroys its callable exactly once", level="exploration", exhaustive=True,
+                technique="exhaustive enumeration of a finite case table (callable type x history) with instance counters and payload pattern as oracle; ASan+UBSan variant",
+                text="33 callable types (sizes 1..2048 across the 56-byte inline/spill boundary and every small-buffer class, alignments 1..256) x constructed from lvalue/rvalue x move-construct chains of length 0-4 x optional move-assignment into an empty OnceFunction x {operator(), cleanupNotRun()}: exactly one stored instance after construction and after every move, invoked exactly once (or never on the not-run path) at exactly the call, constructed == destroyed afterwards, constructed and invoked at an address aligned for the callable, payload intact at invocation. All 1320 combinations are run in both tiers.",
+                note="Finite table enumerated completely; the callable types are a sample of the size/alignment plane chosen on its boundaries (not every size). Inline callables are trivially relocated by memcpy as documented, so instances are counted rather than tracked by address.", design_ref="§4 C39",
+                parts=[rc("small", "once"), rc("small", "once", variant="rcasan")],
+                assumptions=["callables are position independent (documented requirement of OnceFunction)"]),
+    "C40": dict(title="OpResult has optional semantics with balanced lifetimes", level="exploration",
+                technique="rapidcheck stateful model-based testing against an optional model + lifetime registry; ASan+UBSan variant",
+                text="Sequences over three OpResult<Tracked> objects: default / value construction, copy and move construction, copy / move / self assignment, emplace, reads; model = std::optional semantics for every object not moved from (a moved-from source is 'valid but unspecified' until reassigned: its engagement is not compared, but if it reports a value that object must be alive); live contained objects == engaged OpResults after every step and zero at the end.",
+                note=MODEL_NOTE.replace("std::vector model", "optional model").replace("(concurrent growth is C33)", ""), design_ref="§4 C40",
+                parts=[rc("small", "model"), rc("small", "model", variant="rcasan", quick=30000, thorough=400000)],
+                assumptions=["moved-from OpResult state is unspecified (std::optional stays engaged, OpResult disengages; the property demands neither)"]),
+})
